@@ -127,6 +127,8 @@ func (e *Engine) runFunction(st *State, fn *ssa.Function, args []Val, bindings [
 	}
 	fr := &Frame{Fn: fn, Regs: map[ssa.Value]Val{}, Cells: map[*ssa.Alloc]int{}, Active: map[*ssa.BasicBlock]*LoopCtx{}, Params: args}
 	fr.Contract = e.contractOf(fn)
+	fr.EntryAlloc = st.Alloc
+	fr.EntryHeap = snapshot(st.Heap)
 	for i, p := range fn.Params {
 		fr.Regs[p] = args[i]
 	}
